@@ -7,6 +7,7 @@
 From Coq Require Import ZArith Bool List String Lia.
 Require Import X.Base.Num X.Base.NumProofs X.Base.Value X.Syn.Ast X.gen.GenHelpers X.Sem.Prim X.Sem.Sem.
 Import ListNotations.
+Open Scope list_scope.
 Open Scope Z_scope.
 
 (* ------------------------------------------------------------------------------------------ *)
@@ -356,15 +357,19 @@ Lemma fetch_arr_ok v n : arr_ok v -> p_length v = Ok n ->
   forall i, 0 <= i < n -> exists x, p_fetch v (vint i) false = Ok x.
 Proof.
   intros Ha Hn i Hi. destruct v; try contradiction; cbn in Hn; inversion Hn; subst; [|lia].
-  cbn in Ha. cbn [p_fetch]. rewrite to_int_vint; [|rewrite min_int_val; lia]. cbn [bind].
+  change (Z.of_nat (List.length l) <= max_of KInt) in Ha.
+  cbn [p_fetch]. rewrite to_int_vint; [|rewrite min_int_val; lia]. cbn [bind].
   apply index_list_ok. exact Hi.
 Qed.
 
+Lemma str_len_nonneg s : 0 <= str_len s.
+Proof. induction s; cbn [str_len]; lia. Qed.
+
 Lemma length_nonneg v n : p_length v = Ok n -> 0 <= n.
 Proof.
-  destruct v; cbn; intros H; try discriminate H; inversion H; try lia.
-  - clear. induction s; cbn [str_len]; lia.
-  - destruct v; try discriminate. inversion H. clear. induction s0; cbn [str_len]; lia.
+  destruct v as [| | | | | | | | | | |? w|]; cbn; intros H; try discriminate H; try (inversion H; lia).
+  - inversion H. apply str_len_nonneg.
+  - destruct w; try discriminate H. inversion H. apply str_len_nonneg.
 Qed.
 
 (* How the right side relates to a result of the left side: `filter` accounts its c result
@@ -460,3 +465,601 @@ Proof.
   - unfold alloc. rewrite Hb. reflexivity.
   - intros j s' Hj. apply Hp. lia.
 Qed.
+
+(* ---------------- 6. filter keeps exactly the satisfying elements, in order ---------------- *)
+Lemma fetch_nth t l i y : Z.of_nat (List.length l) <= max_of KInt -> nth_error l i = Some y ->
+  p_fetch (VArr t l) (vint (Z.of_nat i)) false = Ok y.
+Proof.
+  intros Hl Hy. assert (Hi : (i < List.length l)%nat) by (apply nth_error_Some; congruence).
+  cbn [p_fetch]. rewrite to_int_vint; [|rewrite min_int_val; lia]. cbn [bind]. unfold index_list.
+  destruct (Z.of_nat i <? 0) eqn:E1; [apply Z.ltb_lt in E1; lia|].
+  destruct (Z.of_nat (List.length l) <=? Z.of_nat i) eqn:E2; [apply Z.leb_le in E2; lia|]. cbn [orb].
+  rewrite Nat2Z.id, Hy. reflexivity.
+Qed.
+
+(* For a predicate that is effect-free and total on the elements (pe = its truth value per
+   element) the result is List.filter pe over the element list, as a fresh []interface{} whose
+   elements are accounted. *)
+Theorem C18_filter_spec ctx a x c s t l s1 (pe : value -> bool) :
+  ev ctx x s = Done (VArr t l) s1 ->
+  Z.of_nat (List.length l) <= max_of KInt ->
+  (forall i y s', nth_error l i = Some y ->
+       ev ((VArr t l, Z.of_nat i) :: ctx) c s' = Done (VBool (pe y)) s') ->
+  ev ctx (EBuiltin a BiFilter [x; c]) s =
+  alloc cfg (aloc a) (Z.of_nat (List.length (List.filter pe l))) s1
+        (fun s3 => Done (VArr TIface (List.filter pe l)) s3).
+Proof.
+  intros Ex Hl Hp. rewrite eval_filter, Ex. cbn [rbind p_length lift]. rewrite Nat2Z.id.
+  set (k := fun (xs : list value) (s2 : rstate) =>
+              alloc cfg (aloc a) (Z.of_nat (List.length xs)) s2 (fun s3 => Done (VArr TIface xs) s3)).
+  assert (G : forall l2 l1 acc s0, l = l1 ++ l2 ->
+     filter_loop (fun i s' => ev ((VArr t l, i) :: ctx) c s') (aloc a)
+       (fun i => p_fetch (VArr t l) (vint i) false) (List.length l2) (Z.of_nat (List.length l1)) acc s0 k
+     = k (rev acc ++ List.filter pe l2) s0).
+  { induction l2 as [|y l2 IH]; intros l1 acc s0 El; cbn [List.length filter_loop List.filter].
+    - rewrite app_nil_r. reflexivity.
+    - assert (Hy : nth_error l (List.length l1) = Some y).
+      { rewrite El, nth_error_app2, Nat.sub_diag; [reflexivity|lia]. }
+      rewrite (Hp _ _ s0 Hy). cbn [rbind as_bool lift].
+      replace (Z.of_nat (List.length l1) + 1) with (Z.of_nat (List.length (l1 ++ [y])))
+        by (rewrite app_length; cbn [List.length]; lia).
+      destruct (pe y).
+      + rewrite (fetch_nth t l _ y Hl Hy). cbn [lift]. rewrite IH.
+        * cbn [rev]. rewrite <- app_assoc. reflexivity.
+        * rewrite <- app_assoc. exact El.
+      + rewrite IH; [reflexivity|]. rewrite <- app_assoc. exact El. }
+  apply (G l [] [] s1). reflexivity.
+Qed.
+
+(* ---------------- 7. a closure sees the element of its own innermost collection ------------- *)
+(* (a) `#` reads the HEAD frame of ctx and nothing else *)
+Theorem C18_pointer_innermost v i outer1 outer2 a s :
+  ev ((v, i) :: outer1) (EPointer a) s = ev ((v, i) :: outer2) (EPointer a) s /\
+  ev ((v, i) :: outer1) (EPointer a) s = lift (aloc a) s (p_fetch v (vint i) false) (fun x => Done x s).
+Proof. split; reflexivity. Qed.
+
+(* (b) every looping builtin evaluates its closure ONLY through
+       fun i s' => eval ((own collection, i) :: ctx) closure s'   (F does not see ctx or c) *)
+Definition is_loop_builtin (b : builtin) : bool :=
+  match b with BiAll | BiNone | BiAny | BiOne | BiFilter | BiMap | BiCount => true | _ => false end.
+
+Theorem C18_closure_frame a b : is_loop_builtin b = true ->
+  exists F : value -> rstate -> (Z -> rstate -> result) -> result,
+  forall ctx x c s,
+    ev ctx (EBuiltin a b [x; c]) s =
+    rbind (ev ctx x s) (fun v s1 => F v s1 (fun i s' => ev ((v, i) :: ctx) c s')).
+Proof.
+  destruct b; intros H; try discriminate H.
+  - exists (fun v s1 body => lift (aloc a) s1 (p_length v) (fun n => all_loop body (aloc a) (Z.to_nat n) 0 s1)).
+    reflexivity.
+  - exists (fun v s1 body => lift (aloc a) s1 (p_length v) (fun n => none_loop body (aloc a) (Z.to_nat n) 0 s1)).
+    reflexivity.
+  - exists (fun v s1 body => lift (aloc a) s1 (p_length v) (fun n => any_loop body (aloc a) (Z.to_nat n) 0 s1)).
+    reflexivity.
+  - exists (fun v s1 body => lift (aloc a) s1 (p_length v) (fun n =>
+      count_loop body (aloc a) (Z.to_nat n) 0 0 s1
+        (fun cnt s2 => lift (aloc a) s2 (p_equal (vint cnt) (vint 1)) (fun r => Done r s2)))).
+    reflexivity.
+  - exists (fun v s1 body => lift (aloc a) s1 (p_length v) (fun n =>
+      filter_loop body (aloc a) (fun i => p_fetch v (vint i) false) (Z.to_nat n) 0 [] s1
+        (fun xs s2 => alloc cfg (aloc a) (Z.of_nat (List.length xs)) s2 (fun s3 => Done (VArr TIface xs) s3)))).
+    reflexivity.
+  - exists (fun v s1 body => lift (aloc a) s1 (p_length v) (fun n =>
+      map_loop body (Z.to_nat n) 0 [] s1
+        (fun xs s2 => alloc cfg (aloc a) n s2 (fun s3 => Done (VArr TIface xs) s3)))).
+    reflexivity.
+  - exists (fun v s1 body => lift (aloc a) s1 (p_length v) (fun n =>
+      count_loop body (aloc a) (Z.to_nat n) 0 0 s1 (fun cnt s2 => Done (vint cnt) s2))).
+    reflexivity.
+Qed.
+
+(* (c) ANY expression, with closures nested to ANY depth inside it: its evaluation depends on the
+   head frame of ctx only.  So the body of a closure is blind to every outer collection / index,
+   however deep the nesting: a counter or element of an enclosing loop cannot leak into it. *)
+Lemma rbind_ext r1 r2 f g : r1 = r2 -> (forall v s, f v s = g v s) -> rbind r1 f = rbind r2 g.
+Proof. intros -> H. destruct r2; cbn; auto. Qed.
+
+Lemma lift_ext {A} l s (o : outcome A) k1 k2 : (forall a, k1 a = k2 a) -> lift l s o k1 = lift l s o k2.
+Proof. intros H. destruct o; cbn; auto. Qed.
+
+Section LoopExt.
+Variables b1 b2 : Z -> rstate -> result.
+Hypothesis Hb : forall i s, b1 i s = b2 i s.
+
+Lemma all_loop_ext l n : forall i s, all_loop b1 l n i s = all_loop b2 l n i s.
+Proof.
+  induction n as [|n IH]; intros; cbn [all_loop]; [reflexivity|].
+  apply rbind_ext; [apply Hb|]. intros v s1. apply lift_ext. intros [|]; [apply IH|reflexivity].
+Qed.
+Lemma none_loop_ext l n : forall i s, none_loop b1 l n i s = none_loop b2 l n i s.
+Proof.
+  induction n as [|n IH]; intros; cbn [none_loop]; [reflexivity|].
+  apply rbind_ext; [apply Hb|]. intros v s1. apply lift_ext. intros [|]; [reflexivity|apply IH].
+Qed.
+Lemma any_loop_ext l n : forall i s, any_loop b1 l n i s = any_loop b2 l n i s.
+Proof.
+  induction n as [|n IH]; intros; cbn [any_loop]; [reflexivity|].
+  apply rbind_ext; [apply Hb|]. intros v s1. apply lift_ext. intros [|]; [reflexivity|apply IH].
+Qed.
+Lemma count_loop_ext l n : forall i c s k, count_loop b1 l n i c s k = count_loop b2 l n i c s k.
+Proof.
+  induction n as [|n IH]; intros; cbn [count_loop]; [reflexivity|].
+  apply rbind_ext; [apply Hb|]. intros v s1. apply lift_ext. intros b. apply IH.
+Qed.
+Lemma filter_loop_ext l elem n : forall i acc s k,
+  filter_loop b1 l elem n i acc s k = filter_loop b2 l elem n i acc s k.
+Proof.
+  induction n as [|n IH]; intros; cbn [filter_loop]; [reflexivity|].
+  apply rbind_ext; [apply Hb|]. intros v s1. apply lift_ext. intros [|]; [|apply IH].
+  apply lift_ext. intros y. apply IH.
+Qed.
+Lemma map_loop_ext_body n : forall i acc s k, map_loop b1 n i acc s k = map_loop b2 n i acc s k.
+Proof.
+  induction n as [|n IH]; intros; cbn [map_loop]; [reflexivity|].
+  apply rbind_ext; [apply Hb|]. intros v s1. apply IH.
+Qed.
+End LoopExt.
+
+(* the two local recursions of `eval`, named *)
+Definition eval_list' (ctx : list (value * Z)) :=
+  fix eval_list (es : list expr) (s : rstate) (k : list value -> rstate -> result) : result :=
+    match es with
+    | [] => k [] s
+    | x :: r => rbind (ev ctx x s) (fun v s1 => eval_list r s1 (fun vs s2 => k (v :: vs) s2))
+    end.
+
+Definition eval_pairs' (ctx : list (value * Z)) (here : loc) :=
+  fix eval_pairs (ps : list expr) (s : rstate) (k : list (value * value) -> rstate -> result) : result :=
+    match ps with
+    | [] => k [] s
+    | EPair _ kx vx :: r =>
+        rbind (ev ctx kx s) (fun vk s1 => rbind (ev ctx vx s1) (fun vv s2 =>
+        eval_pairs r s2 (fun kvs s3 => k ((vk, vv) :: kvs) s3)))
+    | _ :: _ => Stop EOther here s
+    end.
+
+Lemma eval_list_ext ctx1 ctx2 es :
+  (forall x, In x es -> forall s, ev ctx1 x s = ev ctx2 x s) ->
+  forall s k, eval_list' ctx1 es s k = eval_list' ctx2 es s k.
+Proof.
+  induction es as [|x r IH]; intros H s k; cbn [eval_list']; [reflexivity|].
+  apply rbind_ext; [apply H; left; reflexivity|]. intros v s1. apply IH.
+  intros y Hy. apply H. right. exact Hy.
+Qed.
+
+Lemma eval_pairs_ext ctx1 ctx2 here ps :
+  (forall a kx vx, In (EPair a kx vx) ps ->
+      (forall s, ev ctx1 kx s = ev ctx2 kx s) /\ (forall s, ev ctx1 vx s = ev ctx2 vx s)) ->
+  forall s k, eval_pairs' ctx1 here ps s k = eval_pairs' ctx2 here ps s k.
+Proof.
+  induction ps as [|p r IH]; intros H s k; cbn [eval_pairs']; [reflexivity|].
+  destruct p; try reflexivity.
+  destruct (H a p1 p2 (or_introl eq_refl)) as [Hk Hv].
+  apply rbind_ext; [apply Hk|]. intros vk s1. apply rbind_ext; [apply Hv|]. intros vv s2.
+  apply IH. intros a' kx vx Hin. apply (H a' kx vx). right. exact Hin.
+Qed.
+
+Lemma lsize_in x es : In x es -> (esize x <= lsize es)%nat.
+Proof.
+  induction es as [|y r IH]; intros H; [contradiction|]. cbn [lsize]. destruct H as [->|H]; [lia|].
+  specialize (IH H). lia.
+Qed.
+
+Lemma esize_method a x nm args ns : esize (EMethod a x nm args ns) = S (esize x + lsize args).
+Proof. reflexivity. Qed.
+Lemma esize_function a nm args f : esize (EFunction a nm args f) = S (lsize args).
+Proof. reflexivity. Qed.
+Lemma esize_builtin a b args : esize (EBuiltin a b args) = S (lsize args).
+Proof. reflexivity. Qed.
+Lemma esize_array a es : esize (EArray a es) = S (lsize es).
+Proof. reflexivity. Qed.
+Lemma esize_map a es : esize (EMap a es) = S (lsize es).
+Proof. reflexivity. Qed.
+Lemma esize_pair a k v : esize (EPair a k v) = S (esize k + esize v).
+Proof. reflexivity. Qed.
+
+Ltac ext_step IH Hh :=
+  first
+  [ reflexivity
+  | apply IH; [lia | first [exact Hh | reflexivity]]
+  | apply rbind_ext; [ | intros ? ? ]
+  | apply lift_ext; intros ?
+  | match goal with |- (if ?b then _ else _) = (if ?b then _ else _) => destruct b end
+  | match goal with |- match ?x with _ => _ end = match ?x with _ => _ end => destruct x end ].
+
+Lemma eval_head_only : forall n e, (esize e <= n)%nat ->
+  forall ctx1 ctx2 s, hd_error ctx1 = hd_error ctx2 -> ev ctx1 e s = ev ctx2 e s.
+Proof.
+  induction n as [|n IH]; intros e Hs ctx1 ctx2 s Hh.
+  { destruct e; cbn [esize] in Hs; lia. }
+  destruct e.
+  - reflexivity.
+  - reflexivity.
+  - reflexivity.
+  - reflexivity.
+  - reflexivity.
+  - reflexivity.
+  - reflexivity.
+  - (* EUnary *) cbn [esize] in Hs. cbn [eval]. repeat ext_step IH Hh.
+  - (* EBinary *) cbn [esize] in Hs. cbn [eval]. destruct op; repeat ext_step IH Hh.
+  - (* EMatches *) cbn [esize] in Hs. cbn [eval]. destruct re; repeat ext_step IH Hh.
+  - (* EProperty *) cbn [esize] in Hs. cbn [eval]. repeat ext_step IH Hh.
+  - (* EIndex *) cbn [esize] in Hs. cbn [eval]. repeat ext_step IH Hh.
+  - (* ESlice *) cbn [esize] in Hs. cbn [eval]. destruct from, to; repeat ext_step IH Hh.
+  - (* EMethod *) rewrite esize_method in Hs. cbn [eval].
+    apply rbind_ext; [apply IH; [lia|exact Hh]|]. intros v s1.
+    apply (eval_list_ext ctx1 ctx2 args). intros y Hy s'. pose proof (lsize_in y args Hy).
+    apply IH; [lia|exact Hh].
+  - (* EFunction *) rewrite esize_function in Hs. cbn [eval].
+    apply (eval_list_ext ctx1 ctx2 args). intros y Hy s'. pose proof (lsize_in y args Hy).
+    apply IH; [lia|exact Hh].
+  - (* EBuiltin *) rewrite esize_builtin in Hs. cbn [eval].
+    destruct b; destruct args as [|x [|c [|d r]]]; try reflexivity; cbn [lsize] in Hs;
+      (apply rbind_ext; [apply IH; [lia|exact Hh]|]); intros v s1; apply lift_ext; intros m;
+      try reflexivity.
+    + apply all_loop_ext. intros i s'. apply IH; [lia|reflexivity].
+    + apply none_loop_ext. intros i s'. apply IH; [lia|reflexivity].
+    + apply any_loop_ext. intros i s'. apply IH; [lia|reflexivity].
+    + apply count_loop_ext. intros i s'. apply IH; [lia|reflexivity].
+    + apply filter_loop_ext. intros i s'. apply IH; [lia|reflexivity].
+    + apply map_loop_ext_body. intros i s'. apply IH; [lia|reflexivity].
+    + apply count_loop_ext. intros i s'. apply IH; [lia|reflexivity].
+  - (* EClosure *) cbn [esize] in Hs. cbn [eval]. apply IH; [lia|exact Hh].
+  - (* EPointer *) cbn [eval]. destruct ctx1 as [|[v1 i1] r1], ctx2 as [|[v2 i2] r2]; cbn in Hh;
+      try discriminate Hh; [reflexivity|]. inversion Hh. reflexivity.
+  - (* ECond *) cbn [esize] in Hs. cbn [eval]. repeat ext_step IH Hh.
+  - (* EArray *) rewrite esize_array in Hs. cbn [eval].
+    apply (eval_list_ext ctx1 ctx2 es). intros y Hy s'. pose proof (lsize_in y es Hy).
+    apply IH; [lia|exact Hh].
+  - (* EMap *) rewrite esize_map in Hs. cbn [eval].
+    apply (eval_pairs_ext ctx1 ctx2 (loc_of (EMap a pairs)) pairs). intros a' kx vx Hin.
+    pose proof (lsize_in _ pairs Hin) as Hsz. rewrite esize_pair in Hsz.
+    split; intros s'; apply IH; try lia; exact Hh.
+  - reflexivity.
+Qed.
+
+Theorem C18_innermost e v i outer1 outer2 s :
+  ev ((v, i) :: outer1) e s = ev ((v, i) :: outer2) e s.
+Proof. apply (eval_head_only (esize e) e (le_n _)). reflexivity. Qed.
+
+(* ---------------- 8. x in a..b  =  a <= x and x <= b   (integer-kinded x) ---------------- *)
+(* The generated comparison helpers carry out `e == x`, `x >= a`, `x <= b` for x of integer kind k
+   and Go ints e, a, b in the kind cmp_kind k, on the operand value xnorm k x.  (Table entries of
+   coq/gen/GenHelpers.v, regenerated from vm/helpers.go; evaluated here by computation.) *)
+Definition cmp_kind (k : kind) : kind :=
+  match k with KInt8 => KInt8 | KInt16 => KInt16 | KInt32 => KInt32 | KInt64 => KInt64 | _ => KInt end.
+
+Definition xnorm (k : kind) (x : Z) : Z :=
+  match k with
+  | KUint | KUint8 | KUint16 | KUint32 | KUint64 => wrap KInt x
+  | _ => x
+  end.
+
+Lemma cmp_kind_int k : is_intkind (cmp_kind k) = true.
+Proof. destruct k; reflexivity. Qed.
+
+Local Opaque wrap.
+
+Lemma helper_facts k x e : is_intkind k = true -> in_range (cmp_kind k) e = true ->
+  p_equal (vint e) (VNum (NInt k x)) = Ok (VBool (e =? xnorm k x)) /\
+  p_helper HMoreOrEqual (VNum (NInt k x)) (vint e) = Ok (VBool (e <=? xnorm k x)) /\
+  p_helper HLessOrEqual (VNum (NInt k x)) (vint e) = Ok (VBool (xnorm k x <=? e)).
+Proof.
+  intros Hk He. pose proof (wrap_in_range (cmp_kind k) e (cmp_kind_int k) He) as Hw.
+  destruct k; try discriminate Hk; cbn [cmp_kind] in Hw;
+    unfold p_equal, p_helper, vint, helper_num; cbn; rewrite ?Hw; repeat split; reflexivity.
+Qed.
+
+Local Transparent wrap.
+
+Lemma p_in_cons needle t y r :
+  p_in needle (VArr t (y :: r)) =
+  bind (p_equal y needle) (fun e =>
+    match e with VBool true => Ok true | VBool false => p_in needle (VArr t r) | _ => Fail EIfaceConv end).
+Proof. reflexivity. Qed.
+
+Lemma p_in_range_list needle x' t : forall n lo,
+  (forall e, lo <= e < lo + Z.of_nat n -> p_equal (vint e) needle = Ok (VBool (e =? x'))) ->
+  p_in needle (VArr t (range_list lo n)) = Ok ((lo <=? x') && (x' <? lo + Z.of_nat n)).
+Proof.
+  induction n as [|n IH]; intros lo H.
+  - cbn [range_list p_in]. destruct (Z.leb_spec lo x'), (Z.ltb_spec x' (lo + Z.of_nat 0)); cbn; try reflexivity; lia.
+  - cbn [range_list]. rewrite p_in_cons, H by lia. cbn [bind].
+    destruct (Z.eqb_spec lo x') as [E|E].
+    + destruct (Z.leb_spec lo x'), (Z.ltb_spec x' (lo + Z.of_nat (S n))); cbn; try reflexivity; lia.
+    + rewrite IH by (intros e He; apply H; lia).
+      destruct (Z.leb_spec lo x'), (Z.leb_spec (lo + 1) x'), (Z.ltb_spec x' (lo + 1 + Z.of_nat n)),
+        (Z.ltb_spec x' (lo + Z.of_nat (S n))); cbn; try reflexivity; lia.
+Qed.
+
+Lemma in_range_mono k lo hi e : in_range k lo = true -> in_range k hi = true -> lo <= e <= hi -> in_range k e = true.
+Proof.
+  unfold in_range. intros H1 H2 He. apply andb_prop in H1. apply andb_prop in H2.
+  destruct H1 as [H1 _], H2 as [_ H2]. apply Z.leb_le in H1. apply Z.leb_le in H2.
+  apply andb_true_intro. split; apply Z.leb_le; lia.
+Qed.
+
+(* value level: membership in the range a..b is the two-sided comparison, by the same helpers
+   the operators >= and <= use.  Side condition: the bounds are representable in the kind in which
+   the helpers compare (always true for x of kind int, int64 and the unsigned kinds, where it says
+   no more than "a and b are Go ints"). *)
+Theorem C18_in_range k x a b :
+  is_intkind k = true ->
+  in_range (cmp_kind k) a = true -> in_range (cmp_kind k) b = true ->
+  exists r1 r2,
+    p_helper HMoreOrEqual (VNum (NInt k x)) (vint a) = Ok (VBool r1) /\
+    p_helper HLessOrEqual (VNum (NInt k x)) (vint b) = Ok (VBool r2) /\
+    p_in (VNum (NInt k x)) (make_range a b) = Ok (r1 && r2).
+Proof.
+  intros Hk Ha Hb. exists (a <=? xnorm k x), (xnorm k x <=? b).
+  destruct (helper_facts k x a Hk Ha) as (_ & Hge & _).
+  destruct (helper_facts k x b Hk Hb) as (_ & _ & Hle).
+  split; [exact Hge|]. split; [exact Hle|]. unfold make_range.
+  destruct (Z.ltb_spec b a) as [Hlt|Hle'].
+  - cbn [p_in]. destruct (Z.leb_spec a (xnorm k x)), (Z.leb_spec (xnorm k x) b); cbn; try reflexivity; lia.
+  - rewrite (p_in_range_list _ (xnorm k x)).
+    + rewrite Z2Nat.id by lia.
+      destruct (Z.leb_spec a (xnorm k x)), (Z.leb_spec (xnorm k x) b), (Z.ltb_spec (xnorm k x) (a + (b - a + 1)));
+        cbn; try reflexivity; lia.
+    + intros e He. rewrite Z2Nat.id in He by lia.
+      apply (helper_facts k x e Hk). apply (in_range_mono _ a b); [exact Ha|exact Hb|lia].
+Qed.
+
+(* The side condition cannot be dropped for the narrow signed kinds: vm/helpers.go converts the
+   int operand to int8 (known finding C14-rank), so 156 == int8(-100) holds and
+   int8(-100) in 100..200 is true although int8(-100) >= 100 is false. *)
+Definition C18_in_range_full_statement : Prop :=
+  forall k x a b, is_intkind k = true -> in_range k x = true -> in_range KInt a = true -> in_range KInt b = true ->
+  exists r1 r2,
+    p_helper HMoreOrEqual (VNum (NInt k x)) (vint a) = Ok (VBool r1) /\
+    p_helper HLessOrEqual (VNum (NInt k x)) (vint b) = Ok (VBool r2) /\
+    p_in (VNum (NInt k x)) (make_range a b) = Ok (r1 && r2).
+
+Theorem C18_in_range_full_statement_refuted : ~ C18_in_range_full_statement.
+Proof.
+  intros H. destruct (H KInt8 (-100) 100 200 eq_refl eq_refl eq_refl eq_refl) as (r1 & r2 & H1 & H2 & H3).
+  vm_compute in H1. vm_compute in H2. vm_compute in H3.
+  inversion H1. inversion H2. subst. discriminate H3.
+Qed.
+
+(* expression level, for effect-free operands: both sides yield the same boolean; the left side
+   additionally accounts the elements of the range *)
+Lemma eval_in ctx a l r s :
+  ev ctx (EBinary a BIn l r) s =
+  rbind (ev ctx l s) (fun va s1 => rbind (ev ctx r s1) (fun vb s2 =>
+    lift (aloc a) s2 (p_in va vb) (fun b => Done (VBool b) s2))).
+Proof. reflexivity. Qed.
+
+Lemma eval_range ctx a l r s :
+  ev ctx (EBinary a BRange l r) s =
+  rbind (ev ctx l s) (fun va s1 => rbind (ev ctx r s1) (fun vb s2 =>
+    lift (aloc a) s2 (to_int va) (fun lo => lift (aloc a) s2 (to_int vb) (fun hi =>
+      match range_size lo hi with
+      | None => Stop EBudget (aloc a) s2
+      | Some n => alloc cfg (aloc a) n s2 (fun s3 => Done (make_range lo hi) s3)
+      end)))).
+Proof. reflexivity. Qed.
+
+Lemma eval_and ctx a l r s :
+  ev ctx (EBinary a BAndWord l r) s =
+  rbind (ev ctx l s) (fun va s1 => lift (aloc a) s1 (as_bool va) (fun b => if b then ev ctx r s1 else Done va s1)).
+Proof. reflexivity. Qed.
+
+Lemma eval_ge ctx a l r s :
+  ev ctx (EBinary a BGe l r) s =
+  rbind (ev ctx l s) (fun va s1 => rbind (ev ctx r s1) (fun vb s2 =>
+    lift (aloc a) s2 (p_helper HMoreOrEqual va vb) (fun v => Done v s2))).
+Proof. reflexivity. Qed.
+
+Lemma eval_le ctx a l r s :
+  ev ctx (EBinary a BLe l r) s =
+  rbind (ev ctx l s) (fun va s1 => rbind (ev ctx r s1) (fun vb s2 =>
+    lift (aloc a) s2 (p_helper HLessOrEqual va vb) (fun v => Done v s2))).
+Proof. reflexivity. Qed.
+
+Definition range_count (a b : Z) : Z := if b <? a then 0 else b - a + 1.
+
+Theorem C18_in_range_eval ctx a1 a2 a3 a4 a5 X A B k x a b s :
+  (forall s', ev ctx X s' = Done (VNum (NInt k x)) s') ->
+  (forall s', ev ctx A s' = Done (vint a) s') ->
+  (forall s', ev ctx B s' = Done (vint b) s') ->
+  is_intkind k = true ->
+  in_range KInt a = true -> in_range KInt b = true ->
+  in_range (cmp_kind k) a = true -> in_range (cmp_kind k) b = true ->
+  range_count a b <= max_of KInt ->
+  (c_limit cfg <=? r_mem s + range_count a b) = false ->
+  exists r : bool,
+    ev ctx (EBinary a1 BIn X (EBinary a2 BRange A B)) s = Done (VBool r) (add_mem (range_count a b) s) /\
+    ev ctx (EBinary a3 BAndWord (EBinary a4 BGe X A) (EBinary a5 BLe X B)) s = Done (VBool r) s.
+Proof.
+  intros HX HA HB Hk Hai Hbi Ha Hb Hcnt Hlim.
+  destruct (C18_in_range k x a b Hk Ha Hb) as (r1 & r2 & Hge & Hle & Hin).
+  exists (r1 && r2). split.
+  - rewrite eval_in, HX. cbn [rbind]. rewrite eval_range, HA. cbn [rbind]. rewrite HB. cbn [rbind].
+    unfold in_range in Hai, Hbi. apply andb_prop in Hai. apply andb_prop in Hbi.
+    destruct Hai as [Ha1 Ha2], Hbi as [Hb1 Hb2].
+    apply Z.leb_le in Ha1. apply Z.leb_le in Ha2. apply Z.leb_le in Hb1. apply Z.leb_le in Hb2.
+    rewrite (to_int_vint a), (to_int_vint b) by lia. cbn [lift].
+    unfold range_size, range_count in *. rewrite max_int_val, min_int_val in *.
+    destruct (b <? a).
+    + unfold alloc. rewrite Hlim. cbn [rbind]. rewrite Hin. reflexivity.
+    + destruct (Z.leb_spec (b - a + 1) 9223372036854775807) as [Hs|Hs].
+      * unfold alloc. rewrite Hlim. cbn [rbind]. rewrite Hin. reflexivity.
+      * exfalso. lia.
+  - rewrite eval_and, eval_ge, HX. cbn [rbind]. rewrite HA. cbn [rbind]. rewrite Hge. cbn [lift rbind as_bool].
+    destruct r1; cbn [andb]; [|reflexivity].
+    rewrite eval_le, HX. cbn [rbind]. rewrite HB. cbn [rbind]. rewrite Hle. reflexivity.
+Qed.
+
+(* ---------------- 9. slicing at i partitions a sequence ---------------- *)
+Lemma p_slice_arr e l a b : min_of KInt <= a <= max_of KInt -> min_of KInt <= b <= max_of KInt ->
+  p_slice (VArr e l) (vint a) (vint b) =
+  let '(a', b') := clamp_slice (Z.of_nat (List.length l)) a b in
+  if a' <? 0 then Fail EIndexRange
+  else Ok (VArr e (firstn (Z.to_nat (b' - a')) (skipn (Z.to_nat a') l))).
+Proof. intros Ha Hb. cbn [p_slice]. rewrite (to_int_vint a Ha), (to_int_vint b Hb). reflexivity. Qed.
+
+(* For every array and every 0 <= i (also i > len): xs[0:i] ++ xs[i:len] = xs, the first part
+   has min(i, len) elements. *)
+Theorem C18_slice_partition e l i :
+  0 <= i <= max_of KInt -> Z.of_nat (List.length l) <= max_of KInt ->
+  p_slice (VArr e l) (vint 0) (vint i) = Ok (VArr e (firstn (Z.to_nat i) l)) /\
+  p_slice (VArr e l) (vint i) (vint (Z.of_nat (List.length l))) = Ok (VArr e (skipn (Z.to_nat i) l)) /\
+  firstn (Z.to_nat i) l ++ skipn (Z.to_nat i) l = l.
+Proof.
+  intros Hi Hl. pose proof min_int_val as Hmin. split; [|split].
+  - rewrite p_slice_arr by lia. unfold clamp_slice.
+    destruct (Z.ltb_spec (Z.of_nat (List.length l)) i) as [H|H].
+    + destruct (Z.ltb_spec (Z.of_nat (List.length l)) 0); [lia|]. cbn [Z.ltb Z.compare].
+      rewrite Z.sub_0_r, Nat2Z.id. cbn [Z.to_nat skipn].
+      rewrite firstn_all, firstn_all2 by lia. reflexivity.
+    + destruct (Z.ltb_spec i 0); [lia|]. cbn [Z.ltb Z.compare]. rewrite Z.sub_0_r. reflexivity.
+  - rewrite p_slice_arr by lia. unfold clamp_slice. rewrite Z.ltb_irrefl.
+    destruct (Z.ltb_spec (Z.of_nat (List.length l)) i) as [H|H].
+    + destruct (Z.ltb_spec (Z.of_nat (List.length l)) 0); [lia|].
+      rewrite Z.sub_diag, Nat2Z.id. cbn [Z.to_nat firstn].
+      rewrite skipn_all2 by lia. reflexivity.
+    + destruct (Z.ltb_spec i 0); [lia|].
+      rewrite firstn_all2; [reflexivity|]. rewrite skipn_length. lia.
+  - apply firstn_skipn.
+Qed.
+
+(* a negative split point makes both halves fail, with the same class *)
+Theorem C18_slice_negative e l i :
+  min_of KInt <= i < 0 -> Z.of_nat (List.length l) <= max_of KInt ->
+  p_slice (VArr e l) (vint 0) (vint i) = Fail EIndexRange /\
+  p_slice (VArr e l) (vint i) (vint (Z.of_nat (List.length l))) = Fail EIndexRange.
+Proof.
+  intros Hi Hl. pose proof min_int_val as Hmin. pose proof max_int_val as Hmax. split.
+  - rewrite p_slice_arr by lia. unfold clamp_slice.
+    destruct (Z.ltb_spec (Z.of_nat (List.length l)) i); [lia|].
+    destruct (Z.ltb_spec i 0); [|lia]. destruct (Z.ltb_spec i 0); [reflexivity|lia].
+  - rewrite p_slice_arr by lia. unfold clamp_slice. rewrite Z.ltb_irrefl.
+    destruct (Z.ltb_spec (Z.of_nat (List.length l)) i); [lia|].
+    destruct (Z.ltb_spec i 0); [reflexivity|lia].
+Qed.
+
+Lemma eval_slice_to ctx a x I s :
+  ev ctx (ESlice a x None (Some I)) s =
+  rbind (ev ctx x s) (fun v s1 => rbind (ev ctx I s1) (fun vto s2 =>
+    lift (aloc a) s2 (p_slice v (vint 0) vto) (fun r => Done r s2))).
+Proof. reflexivity. Qed.
+
+Lemma eval_slice_from ctx a x I s :
+  ev ctx (ESlice a x (Some I) None) s =
+  rbind (ev ctx x s) (fun v s1 =>
+    rbind (lift (aloc a) s1 (p_length v) (fun n => Done (vint n) s1)) (fun vto s2 =>
+    rbind (ev ctx I s2) (fun vfrom s3 => lift (aloc a) s3 (p_slice v vfrom vto) (fun r => Done r s3)))).
+Proof. reflexivity. Qed.
+
+(* expression level: xs[:I] and xs[I:] for effect-free xs, I *)
+Theorem C18_slice_partition_eval ctx a1 a2 x I e l i s :
+  (forall s', ev ctx x s' = Done (VArr e l) s') ->
+  (forall s', ev ctx I s' = Done (vint i) s') ->
+  0 <= i <= max_of KInt -> Z.of_nat (List.length l) <= max_of KInt ->
+  exists l1 l2,
+    ev ctx (ESlice a1 x None (Some I)) s = Done (VArr e l1) s /\
+    ev ctx (ESlice a2 x (Some I) None) s = Done (VArr e l2) s /\
+    l1 ++ l2 = l /\ Z.of_nat (List.length l1) = Z.min i (Z.of_nat (List.length l)).
+Proof.
+  intros Hx HI Hi Hl. destruct (C18_slice_partition e l i Hi Hl) as (H1 & H2 & H3).
+  exists (firstn (Z.to_nat i) l), (skipn (Z.to_nat i) l). split; [|split; [|split]].
+  - rewrite eval_slice_to, Hx. cbn [rbind]. rewrite HI. cbn [rbind]. rewrite H1. reflexivity.
+  - rewrite eval_slice_from, Hx. cbn [rbind p_length lift]. rewrite HI. cbn [rbind]. rewrite H2. reflexivity.
+  - exact H3.
+  - rewrite firstn_length. lia.
+Qed.
+
+End EvalProofs.
+
+(* ------------------------------------------------------------------------------------------ *)
+(* Non-vacuity: a concrete environment with a logging function, evaluated by vm_compute.        *)
+Module C18Examples.
+Open Scope string_scope.
+Open Scope Z_scope.
+
+Definition ex_fe : fenv :=
+  mkFenv (fun id => if String.eqb id "IsPos" then Some (mkSig [TNum KInt] false 1 false) else None)
+         (fun id _ args => match args with [VNum (NInt KInt a)] => Ok (VBool (0 <? a)) | _ => Fail EOther end)
+         (fun _ _ _ => None) (fun _ _ => None) (fun _ _ => PrimFloat.nan).
+Definition ex_cfg : config := mkCfg false 1000000.
+Definition ints (l : list Z) : value := VArr (TNum KInt) (List.map vint l).
+Definition ex_env : value :=
+  VStruct "Env" true
+    [("AI", ints [1; -2; 3; 4]);
+     ("NN", VArr TIface [ints [1; -1]; ints [2; 3; 0]; ints []]);
+     ("I8", VNum (NInt KInt8 (-100)));
+     ("IsPos", VFunc "IsPos" (TFunc [TNum KInt] false [TBool]))].
+Definition A (c : Z) (k : rkind) : ann := mkAnn (1, c) k.
+Definition ai := EIdent (A 4 RKSlice) "AI" false.
+Definition is_pos_ptr := EFunction (A 9 RKBool) "IsPos" [EPointer (A 15 RKInvalid)] false.   (* IsPos(#) *)
+Definition gt1 := EBinary (A 11 RKBool) BGt (EPointer (A 9 RKInvalid)) (EInt (A 13 (RKNum KInt)) 1). (* # > 1 *)
+Definition run (e : expr) : result := eval ex_fe ex_cfg ex_env [] e rs0.
+
+(* all(AI, {IsPos(#)}) and not any(AI, {not IsPos(#)}): false, both after the calls IsPos(1), IsPos(-2) *)
+Example ex_all_any :
+  run (EBuiltin (A 0 RKBool) BiAll [ai; EClosure (A 8 RKBool) is_pos_ptr]) =
+    Done (VBool false) (mkRS 0 [("IsPos", [vint 1]); ("IsPos", [vint (-2)])]) /\
+  run (EUnary (A 0 RKBool) UNotWord (EBuiltin (A 4 RKBool) BiAny
+        [ai; EClosure (A 12 RKBool) (EUnary (A 13 RKBool) UNotWord is_pos_ptr)])) =
+    Done (VBool false) (mkRS 0 [("IsPos", [vint 1]); ("IsPos", [vint (-2)])]).
+Proof. vm_compute. split; reflexivity. Qed.
+
+(* a non-boolean predicate: both sides fail with the same class in the same state, at their own nodes *)
+Example ex_all_any_nonbool :
+  run (EBuiltin (A 0 RKBool) BiAll [ai; EClosure (A 8 RKBool) (EPointer (A 9 RKInvalid))]) =
+    Stop EIfaceConv (1, 0) rs0 /\
+  run (EUnary (A 0 RKBool) UNotWord (EBuiltin (A 4 RKBool) BiAny
+        [ai; EClosure (A 12 RKBool) (EUnary (A 13 RKBool) UNotWord (EPointer (A 17 RKInvalid)))])) =
+    Stop EIfaceConv (1, 13) rs0.
+Proof. vm_compute. split; reflexivity. Qed.
+
+(* one / count == 1: the hypotheses of C18_one_count_eq_1 hold for the checker's annotations *)
+Example ex_one_hyps :
+  int_const (A 20 (RKNum KInt)) 1 = vint 1 /\
+  both_kind RKString (EBuiltin (A 0 (RKNum KInt)) BiCount [ai; EClosure (A 8 RKBool) gt1]) (EInt (A 20 (RKNum KInt)) 1) = false /\
+  run (EBuiltin (A 0 RKBool) BiOne [ai; EClosure (A 8 RKBool) gt1]) = Done (VBool false) rs0 /\
+  run (EBuiltin (A 0 (RKNum KInt)) BiCount [ai; EClosure (A 8 RKBool) gt1]) = Done (vint 2) rs0.
+Proof. vm_compute. repeat split; reflexivity. Qed.
+
+(* count / len(filter): the collection is an array; count = 2, len(filter) = 2 with 2 elements accounted *)
+Example ex_count_filter_hyp : forall v s1, eval ex_fe ex_cfg ex_env [] ai rs0 = Done v s1 -> arr_ok v.
+Proof. intros v s1 H. vm_compute in H. inversion H; subst. vm_compute. discriminate. Qed.
+
+Example ex_count_filter :
+  run (EBuiltin (A 0 (RKNum KInt)) BiLen [EBuiltin (A 4 RKSlice) BiFilter [ai; EClosure (A 8 RKBool) gt1]]) =
+    Done (vint 2) (mkRS 2 []) /\
+  run (EBuiltin (A 0 RKSlice) BiFilter [ai; EClosure (A 8 RKBool) gt1]) = Done (VArr TIface [vint 3; vint 4]) (mkRS 2 []).
+Proof. vm_compute. split; reflexivity. Qed.
+
+(* filter_spec: `# > 1` is effect-free and total on AI *)
+Definition pe_gt1 (y : value) : bool := match y with VNum (NInt KInt z) => 1 <? z | _ => false end.
+Example ex_filter_spec_hyp : forall i y s',
+  nth_error (List.map vint [1; -2; 3; 4]) i = Some y ->
+  eval ex_fe ex_cfg ex_env [(ints [1; -2; 3; 4], Z.of_nat i)] (EClosure (A 8 RKBool) gt1) s' = Done (VBool (pe_gt1 y)) s'.
+Proof.
+  intros i y s' H. destruct i as [|[|[|[|i]]]]; cbn in H; try (inversion H; subst; reflexivity).
+  destruct i; discriminate H.
+Qed.
+
+(* innermost: map(NN, {count(#, {# > 0})}) - the inner # is an element of the inner collection *)
+Example ex_nested :
+  run (EBuiltin (A 0 RKSlice) BiMap [EIdent (A 4 RKSlice) "NN" false;
+        EClosure (A 8 RKInvalid) (EBuiltin (A 9 (RKNum KInt)) BiCount [EPointer (A 15 RKInvalid);
+          EClosure (A 18 RKBool) (EBinary (A 21 RKBool) BGt (EPointer (A 19 RKInvalid)) (EInt (A 23 (RKNum KInt)) 0))])]) =
+    Done (VArr TIface [vint 1; vint 2; vint 0]) (mkRS 3 []).
+Proof. vm_compute. reflexivity. Qed.
+
+(* in range: hypotheses of C18_in_range for an int8 operand and bounds representable in int8 *)
+Example ex_in_range_hyps :
+  is_intkind KInt8 = true /\ in_range (cmp_kind KInt8) (-120) = true /\ in_range (cmp_kind KInt8) 100 = true /\
+  p_in (VNum (NInt KInt8 (-100))) (make_range (-120) 100) = Ok true.
+Proof. vm_compute. repeat split; reflexivity. Qed.
+
+Example ex_slice : 
+  p_slice (ints [1; 2; 3]) (vint 0) (vint 7) = Ok (ints [1; 2; 3]) /\
+  p_slice (ints [1; 2; 3]) (vint 7) (vint 3) = Ok (ints []) /\
+  p_slice (ints [1; 2; 3]) (vint 0) (vint 1) = Ok (ints [1]) /\
+  p_slice (ints [1; 2; 3]) (vint 1) (vint 3) = Ok (ints [2; 3]).
+Proof. vm_compute. repeat split; reflexivity. Qed.
+End C18Examples.
